@@ -8,6 +8,8 @@
 package main
 
 import (
+	"unicode/utf8"
+	"unicode"
 	"bufio"
 	"bytes"
 	"encoding/hex"
@@ -459,6 +461,56 @@ func genHostile(r *rng) request {
 	}
 }
 
+// unicodeClassRequests: for every Unicode property and general category known to the standard library (Bidi_Control,
+// White_Space, Join_Control, Noncharacter_Code_Point, …; Cf, Zl, Mn, Co, …) the first, the last and one other code point,
+// percent-encoded in the request path (alone and inside a route name), in the query and as text inside a JSON body.  Whatever
+// the service does with such text (routing, logging, decoding), it has to answer.
+func unicodeClassRequests(r *rng) []request {
+	var names []string
+	tables := map[string]*unicode.RangeTable{}
+	for n, t := range unicode.Properties {
+		names = append(names, "A:"+n)
+		tables["A:"+n] = t
+	}
+	for n, t := range unicode.Categories {
+		names = append(names, "C:"+n)
+		tables["C:"+n] = t
+	}
+	sort.Strings(names)
+	seen := map[rune]bool{}
+	var out []request
+	for _, n := range names {
+		t := tables[n]
+		var cand []rune
+		if len(t.R16) > 0 {
+			cand = append(cand, rune(t.R16[0].Lo), rune(t.R16[len(t.R16)-1].Hi))
+			x := t.R16[r.intn(len(t.R16))]
+			cand = append(cand, rune(x.Lo)+rune(r.intn(int(x.Hi-x.Lo)/int(x.Stride)+1))*rune(x.Stride))
+		}
+		if len(t.R32) > 0 {
+			cand = append(cand, rune(t.R32[0].Lo), rune(t.R32[len(t.R32)-1].Hi))
+		}
+		for _, c := range cand {
+			if seen[c] || !utf8.ValidRune(c) || c < 0x80 {
+				continue
+			}
+			seen[c] = true
+			esc := url.PathEscape(string(c))
+			switch len(out) % 4 {
+			case 0:
+				out = append(out, request{method: "GET", path: "/" + esc})
+			case 1:
+				out = append(out, request{method: pick(r, []string{"GET", "POST"}), path: "/totp/" + esc + "etareneg", body: []byte(`{"secret":"GEZDGNBVGY3TQOJQ"}`)})
+			case 2:
+				out = append(out, request{method: "GET", path: "/otp/secret", query: "algorithm=" + url.QueryEscape("SHA1"+string(c))})
+			default:
+				out = append(out, request{method: "POST", path: "/hotp/generate", body: jsonObj(map[string]any{"secret": "GEZDGNBV" + string(c) + "GY3TQOJQ", "counter": 1})})
+			}
+		}
+	}
+	return out
+}
+
 type result struct {
 	status  int
 	body    []byte
@@ -621,6 +673,23 @@ func main() {
 			rq.probe = true
 			reqs = append(reqs, rq)
 		}
+	}
+	if *prop == "C19" {
+		uc := unicodeClassRequests(r)
+		if *n < 3000 && len(uc) > 120 {
+			// quick tier: the properties in full (they are the classes software treats specially), a sample of the categories
+			var keepU []request
+			for i, q := range uc {
+				if i < 90 || i%6 == 0 {
+					keepU = append(keepU, q)
+				}
+			}
+			uc = keepU
+		}
+		for i := range uc {
+			uc[i].probe = true
+		}
+		reqs = append(uc, reqs...)
 	}
 	results := make([]result, len(reqs))
 	// first third: sequential keep-alive; second third: fresh connections; last third: 8 concurrent clients
